@@ -111,6 +111,9 @@ func c15(r *Report) propMeta {
 		"AddReport refuses a report only for the reasons of CheckValidReport (unknown request, validator not asked, already reported, wrong external ids): a report that arrives in time is stored",
 		"makes AddReport refuse the report", "a validator that reported before the request expired is later deactivated for missing it")
 
+	r.Rule("C15.lint", "E8 module lint: no nondeterminism / process-local state in x/oracle")
+	r.ModuleLint("module-lint", "oracle", 20)
+
 	return propMeta{
 		Decided: []string{
 			"R1 NewValidatorStatus(true,…) only in Activate; NewValidatorStatus(false,…) only in MissReport and the not-found default; the status store has one writer reached only from Activate/MissReport/genesis",
@@ -122,6 +125,7 @@ func c15(r *Report) propMeta {
 			"R7 every KV-store Get/Has/Delete of x/oracle uses a key builder of x/oracle/types that some Set of the module also uses (a probe of an iteration prefix or of a sibling family is always-empty state)",
 			"R8 the literal constructors of x/oracle/types (frozen list) store each parameter or a constant unchanged in the record they build: what a handler validated is what is stored",
 			"R9 error-origin census of AddReport: the frozen set of refusal reasons (those of CheckValidReport); an added refusal - e.g. `request height + expiration <= block height`, which also fires in the expiry block itself (seed C15-8) - is reported",
+			"lint: the determinism lint (incl. writes to memory held by long-lived objects) over everything reachable from the handlers and blockers of x/oracle",
 		},
 		Undecided: []string{"fairness over the four-clock timing space (boundary equalities being the intended ones)", "block time monotonicity"},
 		Assume:    []string{"msg handlers atomic"},
